@@ -22,31 +22,53 @@ WIRE_ASSUME = [
     "bzip2 and AES-GCM are opaque layers (round trip and framing only)",
 ]
 
+MODELS = {"wire": ("WireMC.tla", "WireMC_%s.cfg"), "evo": ("Evo.tla", "Evo_%s.cfg")}
+_tlc_cache = {}
+
+def model_records(model, tier, fresh):
+    """ndjson of TLC's REPLAY records for a model; runs TLC when `fresh` or when the file is missing.
+    returns (path, stats or None)"""
+    recs = os.path.join(WORK, "%s_%s.ndjson" % (model, tier))
+    if (model, tier) in _tlc_cache:
+        return recs, _tlc_cache[(model, tier)]
+    if not fresh and os.path.exists(recs):
+        return recs, None
+    mod, cfg = MODELS[model]
+    r = vlib.run_tlc(mod, cfg % tier, "%s_%s" % (model, tier), workers=8, timeout=6000 if tier == "thorough" else 1200)
+    if r["violated"]:
+        raise ToolError("%s: TLC reports a violation in the specification itself (see %s)" % (mod, r["out"]))
+    n = vlib.printed_json(r["out"], recs)
+    if n == 0:
+        raise ToolError("%s produced no behaviours" % mod)
+    _tlc_cache[(model, tier)] = r["stats"]
+    return recs, r["stats"]
+
+def family_build(tier, need):
+    """Runs TLC for the models in `need`, (re)generates the Rust types from the union of all models'
+    descriptors (so that the generated crates are identical whichever property is being checked) and builds."""
+    out = {}
+    inputs = []
+    for m in MODELS:
+        path, stats = model_records(m, tier, fresh=(m in need))
+        out[m] = (path, stats)
+        inputs.append(path)
+    g = vlib.gen_types(os.path.join(HARNESS, "genwire"), "genwire", 12, inputs)
+    log("[gen] %s" % g)
+    binp = vlib.cargo_build("wire")
+    return out, binp
+
 def wire_pipeline(tier, replay=None):
     """returns (tlc stats, records path, results path, n records)"""
-    cfg = "WireMC_%s.cfg" % tier
-    recs = os.path.join(WORK, "wire_%s.ndjson" % tier)
+    built, binp = family_build(tier, ["wire"])
+    recs, stats = built["wire"]
     if replay:
         rec = json.load(open(replay))["record"]
         recs = os.path.join(WORK, "wire_replay.ndjson")
         open(recs, "w").write(json.dumps(rec) + "\n")
         stats = {"generated": 0, "distinct": 0}
-        n = 1
-    else:
-        r = vlib.run_tlc("WireMC.tla", cfg, "wiremc_" + tier, workers=8, timeout=3000 if tier == "thorough" else 900)
-        if r["violated"]:
-            raise ToolError("WireMC: TLC reports an invariant violation in the specification itself (see %s)" % r["out"])
-        stats = r["stats"]
-        n = vlib.printed_json(r["out"], recs)
-        if n == 0:
-            raise ToolError("WireMC produced no behaviours")
-    gdir = os.path.join(HARNESS, "genwire")
-    g = vlib.gen_types(gdir, "genwire", 12, [os.path.join(WORK, "wire_%s.ndjson" % tier)] if os.path.exists(os.path.join(WORK, "wire_%s.ndjson" % tier)) else [recs])
-    log("[gen] %s" % g)
-    binp = vlib.cargo_build("wire")
     res = recs + ".res"
     vlib.run_bin(binp, ["replay", recs, res], env={"WIRE_ALLMODES_EVERY": "1" if tier == "thorough" else "3"})
-    return stats, recs, res, n
+    return stats, recs, res, sum(1 for _ in open(recs))
 
 def wire_check(prop_id, tier, replay, prefixes, level_text):
     v = Verdict(prop_id, tier)
@@ -94,10 +116,68 @@ def c02(p, tier, replay):
         "bare_serialize / save / save_noschema bytes must equal them exactly, the header must be the documented one, "
         "and the real reader must load the specification's bytes")
 
+EVO_ASSUME = [
+    "histories: final definitions of spec/Evo.tla (Histories) with versions 0..2; each program version is DefAt(D, i), generated as its own Rust type",
+    "the meaning oracles Load / Down are defined by structural recursion, independently of the reader machine Wire!Dec, and TLC proves they agree",
+    "conversion functions are the fixed zero-extending conversions of Wire!Conv (generated as the versions_as function)",
+]
+
+def evo_check(prop_id, tier, replay, mode, prefix, level_text):
+    v = Verdict(prop_id, tier)
+    built, binp = family_build(tier, ["evo"])
+    recs, stats = built["evo"]
+    sel = os.path.join(WORK, "evo_%s_%s.sel" % (tier, mode))
+    if replay:
+        rec = json.load(open(replay))["record"]
+        open(sel, "w").write(json.dumps(rec) + "\n")
+        stats = {"generated": 0, "distinct": 0}
+    else:
+        with open(sel, "w") as o:
+            for line in open(recs):
+                if '"mode":"%s"' % mode in line:
+                    o.write(line)
+    res = sel + ".res"
+    vlib.run_bin(binp, ["evo", sel, res])
+    records = open(sel).read().splitlines()
+    evals, nontrivial, hist, samples = 0, set(), set(), []
+    for line in open(res):
+        r = json.loads(line)
+        rec = json.loads(records[r["i"]])
+        evals += 1
+        hist.add(json.dumps(rec["d"], sort_keys=True))
+        if rec["i"] != rec["j"]:
+            nontrivial.add((json.dumps(rec["d"], sort_keys=True), rec["i"], rec["j"], json.dumps(rec["v"], sort_keys=True)))
+        if len(samples) < 3 and rec["i"] != rec["j"] and len(rec["bytes"]) > 3:
+            samples.append({"history": vlib.show(rec["d"]), "written_at": rec["i"], "other_version": rec["j"],
+                            "writer_def": vlib.show(rec["ts"][0] if mode == "up" else rec["ts"][1]),
+                            "reader_def": vlib.show(rec["ts"][1] if mode == "up" else rec["ts"][0]),
+                            "value": rec["v"], "bytes": rec["bytes"], "expected": rec["expect"]})
+        for f in r["fails"]:
+            if f["check"].startswith("tool."):
+                raise ToolError("harness: %s %s" % (f["check"], f["detail"][:200]))
+            if f["check"].startswith(prefix):
+                v.report(f["check"], {"t": rec["d"], "i": rec["i"], "j": rec["j"]},
+                         "%s i=%d j=%d :: %s" % (vlib.show(rec["d"]), rec["i"], rec["j"], f["detail"]), rec)
+    cov = {"states": stats["distinct"] if stats else 0, "transitions": stats["generated"] if stats else 0,
+           "traces_validated_against_impl": evals, "evaluations": evals, "distinct_nontrivial": len(nontrivial),
+           "rule": "one behaviour per (history, version pair i<=j, boundary value); non-trivial = the two versions differ; distinct by (history, i, j, value)",
+           "histories": len(hist), "samples": samples, "exhaustive": not replay, "explanation": level_text}
+    return v.finish("model_checking", cov, EVO_ASSUME)
+
+@prop("C03")
+def c03(p, tier, replay):
+    return evo_check(p, tier, replay, "up", "c03.",
+        "TLC enumerates evolution histories x version pairs x values, runs the writer machine of program i and the reader of "
+        "program j and proves EvolutionLoad (reader result = Load oracle); each behaviour is replayed with the generated Rust "
+        "types of both program versions through bare, plain, schema-less, bzip2 and encrypted containers")
+
+@prop("C18")
+def c18(p, tier, replay):
+    return evo_check(p, tier, replay, "down", "c18.",
+        "TLC enumerates add/AbiRemoved histories x (current n, written k<=n) x values and proves OlderWrite (bytes = encoding of "
+        "the version-k definition, reader of program k obtains Down(value)); each behaviour is replayed: program n's "
+        "bare_serialize at version k, program k's bare_deserialize")
+
 def prebuild():
     """used by bin/setup: generate sources for the quick tier and build all harness binaries"""
-    r = vlib.run_tlc("WireMC.tla", "WireMC_quick.cfg", "wiremc_quick", workers=8, timeout=900)
-    recs = os.path.join(WORK, "wire_quick.ndjson")
-    vlib.printed_json(r["out"], recs)
-    vlib.gen_types(os.path.join(HARNESS, "genwire"), "genwire", 12, [recs])
-    vlib.cargo_build("wire")
+    family_build("quick", list(MODELS))
